@@ -6902,7 +6902,7 @@ class Rect(Shape):
         """
         scale_x = self.transform.value_scale_x()
         scale_y = self.transform.value_scale_y()
-        if scale_x * scale_y < 0:
+        if scale_x < 0 or scale_y < 0:
             return self  # No reification of negative values, gives negative dims.
         translate_x = self.transform.value_trans_x()
         translate_y = self.transform.value_trans_y()
@@ -7122,7 +7122,7 @@ class _RoundShape(Shape):
         """
         scale_x = self.transform.value_scale_x()
         scale_y = self.transform.value_scale_y()
-        if scale_y * scale_x < 0:
+        if scale_y < 0 or scale_x < 0:
             return self  # No reification of flipped values.
         translate_x = self.transform.value_trans_x()
         translate_y = self.transform.value_trans_y()
